@@ -147,6 +147,9 @@ def key_order_program(rng):
            "Object.defineProperties(o, {K: {value: 'dps', writable: true, enumerable: true, configurable: true}, K2: {value: 'dps2', writable: true, enumerable: true, configurable: true}});",
            "o = Object.assign({}, o);", "o = JSON.parse(JSON.stringify(o));", "o = Object.create(Object.prototype, {K: {value: 1, enumerable: true, writable: true, configurable: true}, K2: {get: function () { return 2; }, enumerable: true, configurable: true}});",
            "var o2 = {get K() { return 1; }, set K(v) { }, K2: 2}; Object.defineProperty(o2, 'K', {value: 'was-accessor', writable: true, enumerable: true, configurable: true}); log(Object.keys(o2), JSON.stringify(o2));",
+           "Object.defineProperty(o, 'K', {get: function () { return 1; }, enumerable: true, configurable: true}); Object.defineProperty(o, 'K2', {get: function () { return 2; }, set: function (v) { }, enumerable: true, configurable: true}); "
+           "Object.defineProperty(o, 'K', {value: 'conv', writable: true, enumerable: true, configurable: true});",
+           "Object.defineProperty(o, 'K', {set: function (v) { }, enumerable: true, configurable: true}); Object.defineProperty(o, 'K2', {value: 'conv2', writable: true, enumerable: true, configurable: true});",
            "o = Object.fromEntries ? Object.fromEntries(Object.entries(o)) : o;", "for (var q in o) { if (q === 'K') { delete o[q]; } }", "o.K = {K2: 1, K: 2};"]
     for _ in range(rng.randint(2, 6)):
         op = rng.choice(ops)
